@@ -362,6 +362,65 @@ class Parser:
         return ("match", s, arms)
 
 
+def fn_params(code, header_re):
+    """names of the parameters of the *definition* matching header_re (without `self`)"""
+    for m in re.finditer(header_re, code):
+        j = m.end()
+        while j < len(code) and code[j] not in "{;":
+            j += 1
+        if j < len(code) and code[j] == "{":
+            k = code.index("(", m.start())
+            depth, cur, parts = 0, "", []
+            for ch in code[k + 1:]:
+                if ch in "(<[":
+                    depth += 1
+                elif ch in ")>]":
+                    if ch == ")" and depth == 0:
+                        break
+                    depth -= 1
+                if ch == "," and depth == 0:
+                    parts.append(cur); cur = ""
+                else:
+                    cur += ch
+            parts.append(cur)
+            names = []
+            for p_ in parts:
+                p_ = p_.strip()
+                if not p_ or p_.replace("&", "").replace("mut ", "").strip() == "self":
+                    continue
+                names.append(p_.split(":")[0].replace("mut ", "").strip())
+            return names
+    raise Unavailable(f"no definition matching {header_re!r}")
+
+
+def rename_vars(e, ren):
+    """rename variables in a parsed tree (used to give the parameters of `interp_into` the names of the generated signature)"""
+    if isinstance(e, tuple):
+        if len(e) == 2 and e[0] == "var" and e[1] in ren:
+            return ("var", ren[e[1]])
+        return tuple(rename_vars(x, ren) for x in e)
+    if isinstance(e, list):
+        return [rename_vars(x, ren) for x in e]
+    if isinstance(e, str) and False:
+        return e
+    return e
+
+
+def parse_fn_as(code, header_re, want):
+    """parse the definition and rename its parameters (in order, without self) to `want`"""
+    names = fn_params(code, header_re)
+    if len(names) != len(want):
+        raise Unavailable(f"{len(names)} parameters, expected {len(want)}")
+    ren = {a: b for a, b in zip(names, want) if a != b}
+    clash = set(ren.values()) & set(names) - set(ren.keys())
+    b = parse_fn(code, header_re)
+    if ren:
+        if clash:
+            raise Unavailable("parameter names clash with the generated signature")
+        b = rename_vars(b, ren)
+    return b
+
+
 def parse_fn(code, header_re):
     # the definition (a body follows), not a declaration inside a trait (`fn f(..) -> T;`)
     for m in re.finditer(header_re, code):
@@ -1104,13 +1163,13 @@ def gen_strategies(src_dir, out, all_unavailable=False):
     calls1 = {"is_in_range": ("acc1_is_in_range", ["xs"]), "get_index_left_of": ("acc1_get_index_left_of", ["xs"]),
               "index_point": ("acc1_index_point", ["xs", "ys"])}
     add("linear_interp_into", "{α V : Type} [Cmp α] [Add α] [Sub α] [Mul α] [Div α] [NatCast α] [ToUsize α] [Lanes α V] (ext : Bool) (xs : List α) (ys : List V) (x : α) : Except Fault V",
-            lambda: (lambda b: Strat({}, calls1, aliases=["interpolator"]).stmts(b[1], b[2], "  ", strat_result("target")))(parse_fn(lin, r"fn\s+interp_into\s*\(")),
+            lambda: (lambda b: Strat({}, calls1, aliases=["interpolator"]).stmts(b[1], b[2], "  ", strat_result("target")))(parse_fn_as(lin, r"fn\s+interp_into\s*\(", ["interpolator", "target", "x"])),
             fallback="linearInterp ext xs ys x",
             depends=["acc1_is_in_range", "acc1_get_index_left_of", "acc1_index_point"])
     # ---- CubicSplineStrategy::interp_into
     cs = rd("interp1d/strategies/cubic_spline.rs")
     add("spline_interp_into", "{α V : Type} [Cmp α] [Add α] [Sub α] [Mul α] [Div α] [Neg α] [NatCast α] [ToUsize α] [RemEuclid α] [Lanes α V] (s : SplineStrat V) (xs : List α) (ys : List V) (x : α) : Except Fault V",
-        lambda: (lambda b: Strat({"a": "s.a", "b": "s.b"}, calls1, aliases=["interp"], alias_arrays={"x": "xs", "data": "ys"}).stmts(b[1], b[2], "  ", strat_result("target")))(parse_fn(cs, r"fn\s+interp_into\s*\(")),
+        lambda: (lambda b: Strat({"a": "s.a", "b": "s.b"}, calls1, aliases=["interp"], alias_arrays={"x": "xs", "data": "ys"}).stmts(b[1], b[2], "  ", strat_result("target")))(parse_fn_as(cs, r"fn\s+interp_into\s*\(", ["interp", "target", "x"])),
         fallback="splineInterp s xs ys x", depends=["acc1_is_in_range", "acc1_get_index_left_of", "acc1_index_point"])
     # ---- Interp2D accessors
     c2 = rd("interp2d/mod.rs")
@@ -1130,7 +1189,7 @@ def gen_strategies(src_dir, out, all_unavailable=False):
     calls2 = {"is_in_x_range": ("acc2_is_in_x_range", ["xs"]), "is_in_y_range": ("acc2_is_in_y_range", ["ys"]),
               "get_index_left_of": ("acc2_get_index_left_of", ["xs", "ys"]), "index_point": ("acc2_index_point", ["xs", "ys", "zs"])}
     add("bilinear_interp_into", "{α V : Type} [Cmp α] [Add α] [Sub α] [Mul α] [Div α] [NatCast α] [ToUsize α] [Lanes α V] (ext : Bool) (xs ys : List α) (zs : List (List V)) (x y : α) : Except Fault V",
-            lambda: (lambda b: Strat({}, calls2, aliases=["interpolator"]).stmts(b[1], b[2], "  ", strat_result("target")))(parse_fn(bil, r"fn\s+interp_into\s*\(")),
+            lambda: (lambda b: Strat({}, calls2, aliases=["interpolator"]).stmts(b[1], b[2], "  ", strat_result("target")))(parse_fn_as(bil, r"fn\s+interp_into\s*\(", ["interpolator", "target", "x", "y"])),
             fallback="bilinearInterp ext xs ys zs x y",
             depends=["acc2_is_in_x_range", "acc2_is_in_y_range", "acc2_get_index_left_of", "acc2_index_point"])
 
@@ -1315,8 +1374,9 @@ FUNCS = [("mono_start", gen_start, ": MState", "MState.init"),
          ("get_lower_index", gen_lower, None, None)]
 
 
-def translate(src_dir, all_unavailable=False):
+def translate(src_dir, all_unavailable=False, drop=()):
     out = Out()
+    out.drop = set(drop)
     try:
         code = strip_comments(open(os.path.join(src_dir, "vector_extensions.rs")).read())
         # the unit tests of the file are not part of the functions
@@ -1353,6 +1413,18 @@ def translate(src_dir, all_unavailable=False):
 
 
 def emit(out):
+    # functions Lean rejected in an earlier attempt of this run (and everything that calls them) are emitted as unavailable
+    bad = set(getattr(out, "drop", ()))
+    changed = True
+    while changed:
+        changed = False
+        for d in out.defs:
+            if d["name"] not in bad and d["body"] is not None and (set(d["depends"]) & bad or any(re.search(r"\b" + re.escape(b) + r"\b", d["body"]) for b in bad)):
+                bad.add(d["name"]); changed = True
+    for d in out.defs:
+        if d["name"] in bad and d["body"] is not None:
+            d["body"] = None
+            out.status[d["name"]] = "unavailable: the generated definition was rejected by Lean (translator limitation)"
     L = ["/-", "GENERATED by tools/translate_control.py from /repo/src/vector_extensions.rs on every run — do not edit.",
          "The control flow of `MonotonicState::{start, update, short_circuit, finish}`, `monotonic_prop` and `get_lower_index`,",
          "statement by statement, as it is in the source now.  `NdInterp/Props/FormulaTie/Ctl.lean` proves each function equal to the",
@@ -1377,7 +1449,8 @@ def main():
         src = sys.argv[sys.argv.index("--src") + 1]
     if "--out" in sys.argv:
         out_path = sys.argv[sys.argv.index("--out") + 1]
-    out = translate(src, "--all-unavailable" in sys.argv)
+    drop = sys.argv[sys.argv.index("--unavailable") + 1].split(",") if "--unavailable" in sys.argv else ()
+    out = translate(src, "--all-unavailable" in sys.argv, drop)
     text = emit(out)
     old = open(out_path).read() if os.path.exists(out_path) else None
     if old != text:
